@@ -1,5 +1,5 @@
 #!/opt/veriftools/pyvenv/bin/python3
-"""Check driver for the tsys engine (C09 par.Work, C10 par.Cache).
+"""Check driver for the tsys engine (C09 par.Work, C10 par.Cache, C17 testscript.waitOrStop).
 
 Dumps the go/ssa form of /repo/par (with the harness overlay) afresh, runs the
 registered bounded-model-checking configurations in parallel, writes
@@ -44,6 +44,43 @@ CONFIGS = {
         'quick': cache_configs(2, False),
         'thorough': cache_configs(2, False) + cache_configs(3, True),
     },
+    'C17': {
+        'quick': [dict(mode='wos', steps=18, env='')],
+        # thorough: the same system unrolled deeper, plus each of the 8 environments on its own
+        'thorough': [dict(mode='wos', steps=26, env='')] + [
+            dict(mode='wos', steps=26, env='DEADLINE_SET=%d,EXITS_BY_ITSELF=%d,IGNORES_INTERRUPT=%d' % (a, b, c), expect_witness=(a == 1 and b == 0 and c == 1))
+            for a in (0, 1) for b in (0, 1) for c in (0, 1) if (a, b) != (0, 0)],
+    },
+}
+
+PKG = {'C09': 'par', 'C10': 'par', 'C17': 'testscript'}
+SYMX_PART = {'C17'}
+
+_PAR_STUBS = ['sync.Mutex (owner), sync.Cond (Wait = atomically unlock and park; resumes only after a Signal/Broadcast chose it and the mutex is re-acquired; no spurious wake-ups), sync.Map Load/LoadOrStore/Store atomic, sync/atomic loads/stores atomic, math/rand.Intn(n) = any value in [0,n), go = activation of a free goroutine slot; sequentially consistent memory']
+_PAR_OUTSIDE = ['more workers/items/goroutines/keys than the bound', 'memory-model effects weaker than sequential consistency (the data-race query shows the plain accesses are ordered)']
+STUBS = {
+    'C09': _PAR_STUBS, 'C10': _PAR_STUBS,
+    'C17': [
+        'unbuffered channel: a send completes only while a receiver is parked on the channel; the receiver takes the value in a later transition of its own',
+        'select: the solver picks among the ready cases; blocks while none is ready',
+        'context: ctx.Done() is ready once the environment process "deadline fires" ran (only if a deadline is set); ctx.Err() is DeadlineExceeded from then on, nil before',
+        'process: running until one of the environment processes ends it (exits by itself if the solver made it such a process; exits on a delivered interrupt unless it ignores interrupts; dies from a delivered kill)',
+        '(*os.Process).Signal / Kill: deliver the signal unless the process has already been waited for, in which case they return os.ErrProcessDone (the documented contract); a signal to an exited but unreaped process succeeds and has no effect',
+        '(*exec.Cmd).Wait: blocks until the process has ended; returns an exit error if it was ended by a signal, otherwise the status the solver chose',
+        'time.NewTimer / Stop / C: the timer fires at any moment after it was started unless stopped (untimed: every ordering of the timer against the other events is explored)',
+        'error values are an enumeration (nil, context error, ErrProcessDone, exit error)',
+        'go = activation of the helper goroutine slot; it ends the transition of the spawner',
+    ],
+}
+OUTSIDE = {
+    'C09': _PAR_OUTSIDE, 'C10': _PAR_OUTSIDE,
+    'C17': [
+        'real-time distances: the model is untimed, it shows the order interrupt -> (grace period timer) -> kill and that every run ends once a deadline is set; that the instants are "two grace periods before the deadline" and "one grace period later" is the arithmetic in RunT, decided separately by the symx harness of this check',
+        'a Signal or Kill call failing for a reason other than "process already waited for" (EPERM)',
+        'a process that survives SIGKILL (uninterruptible sleep) or detached grandchildren holding the output pipes open (cmd.Wait then waits for them; exec.Cmd.WaitDelay is not used by this code)',
+        'background commands (waitOrStop with killDelay -1) and the interrupt sent to them at the end of a script',
+        'the scheduling slack of the Go runtime and operating system',
+    ],
 }
 
 BOUNDS = {
@@ -55,6 +92,10 @@ BOUNDS = {
         'quick': '2 goroutines, each performing one call chosen by the solver from {Do(k0), Do(k1), Get(k0), Get(k1)}; all schedules up to 24 transitions',
         'thorough': 'additionally 3 goroutines, case-split over the 20 multisets of call kinds (each case: all schedules up to its transition bound)',
     },
+    'C17': {
+        'quick': 'one call of waitOrStop(ctx, cmd, killDelay>0): the waiting goroutine, the helper goroutine it starts and five environment processes (deadline fires, process exits by itself, process exits on the interrupt, process dies from the kill, kill-delay timer fires); whether a deadline is set, whether the process exits by itself, whether it ignores the interrupt and its exit status are solver constants; all interleavings and select choices up to 18 transitions (the unwinding assertion shows every run has ended by then). symx part: one script with one foreground exec line through the real RunT/run/cmdExec/exec, Params.Deadline set or not, distance to the deadline any int64 in [-2^40, 2^55] ns, command result and context expiry symbolic',
+        'thorough': 'the same system unrolled to 26 transitions, and additionally each of the 8 environments (deadline set x exits by itself x ignores the interrupt) decided on its own',
+    },
 }
 
 def run_cfg(ssa, cfg, outdir, idx, timeout):
@@ -64,6 +105,11 @@ def run_cfg(ssa, cfg, outdir, idx, timeout):
         cmd += ['--workers', str(cfg['workers']), '--items', str(cfg['items'])]
         if cfg.get('graph'):
             cmd += ['--graph', cfg['graph']]
+    elif cfg['mode'] == 'wos':
+        if cfg.get('env'):
+            cmd += ['--env', cfg['env']]
+        if cfg.get('expect_witness') is False:
+            cmd += ['--no-witness']
     else:
         cmd += ['--goroutines', str(cfg['goroutines'])]
         if cfg.get('ck'):
@@ -93,12 +139,13 @@ def main():
     t0 = time.time()
     tmp = tempfile.mkdtemp(prefix='verif-tsys-')
     ssa = os.path.join(tmp, 'par.json')
+    pkg = PKG[pid]
     env = dict(os.environ, GOFLAGS='-mod=mod', GOPROXY='off', GOSUMDB='off', GOTOOLCHAIN='local')
-    p = subprocess.run([os.path.join(VERIF, 'bin', 'symx'), 'ssajson', '--pkg', 'par', '--out', ssa], capture_output=True, text=True, env=env)
+    p = subprocess.run([os.path.join(VERIF, 'bin', 'symx'), 'ssajson', '--pkg', pkg, '--out', ssa], capture_output=True, text=True, env=env)
     problems = []
     results = []
     if p.returncode != 0 or not os.path.exists(ssa):
-        problems.append('cannot build SSA of /repo/par with the harness overlay: ' + (p.stdout + p.stderr)[-1500:])
+        problems.append('cannot build SSA of /repo/' + pkg + ' with the harness overlay: ' + (p.stdout + p.stderr)[-1500:])
     else:
         cfgs = CONFIGS[pid][tier]
         timeout = 600 if tier == 'quick' else 3000
@@ -106,6 +153,27 @@ def main():
         with ThreadPoolExecutor(max_workers=workers) as ex:
             futs = [ex.submit(run_cfg, ssa, c, tmp, i, timeout) for i, c in enumerate(cfgs)]
             results = [f.result() for f in futs]
+    # C17 has a second part decided by the symx engine (deadline arithmetic, hand-over, attribution)
+    symx_part = None
+    symx_rc = 0
+    if pid in SYMX_PART:
+        try:
+            os.remove(os.path.join(VERIF, 'evidence', pid + '.json'))
+        except FileNotFoundError:
+            pass
+        sp = subprocess.run([os.path.join(VERIF, 'bin', 'symx'), 'check', pid, '--tier', tier], capture_output=True, text=True, env=env)
+        symx_rc = sp.returncode
+        so = sp.stdout + sp.stderr
+        for l in so.split('\n'):
+            if l.startswith('VIOLATION ') or l.startswith('KNOWN-FINDING') or l.startswith('  harness='):
+                print(l)
+        try:
+            symx_part = json.load(open(os.path.join(VERIF, 'evidence', pid + '.json')))
+        except Exception:
+            symx_part = None
+        if symx_rc == 2 or (symx_rc == 0 and symx_part is None):
+            problems.append('symx part: ' + ' '.join(l for l in so.split('\n') if l.startswith('INCONCLUSIVE'))[:1500])
+        print('symx part: ' + ' '.join(l for l in so.split('\n') if l.startswith('OK ') or l.startswith('harness ')).strip()[:300])
     violations = []
     states = 0
     transitions = 0
@@ -151,7 +219,7 @@ def main():
         print('VIOLATION property=%s replay=%s' % (pid, rf))
         print('  ' + text)
         vlines.append(text)
-    if nviol:
+    if nviol or symx_rc == 1:
         exit_code = 1
     elif problems:
         exit_code = 2
@@ -168,8 +236,8 @@ def main():
             'solver': 'z3 5.1.0 (python API, QF_BV), one fresh solver per query',
             'rule': 'states = control locations x unrolling depth of the bounded transition system generated from go/ssa; transitions = guarded transitions x depth; every query (safety, deadlock, unwinding assertion, witness, data race) is decided over all schedules and free choices inside the bound',
             'configs': [r['config'] for r in results],
-            'stubs': ['sync.Mutex (owner), sync.Cond (Wait = atomically unlock and park; resumes only after a Signal/Broadcast chose it and the mutex is re-acquired; no spurious wake-ups), sync.Map Load/LoadOrStore atomic, sync/atomic loads/stores atomic, math/rand.Intn(n) = any value in [0,n), go = activation of a free goroutine slot; sequentially consistent memory'],
-            'outside_claim': ['more workers/items/goroutines/keys than the bound', 'memory-model effects weaker than sequential consistency (the data-race query shows the plain accesses are ordered)'],
+            'stubs': STUBS[pid],
+            'outside_claim': OUTSIDE[pid],
         },
         'assumptions': [
             'the tsys translator (bmc.py) implements the go/ssa semantics of the instruction kinds it supports (anything else is reported as unsupported, exit 2)',
@@ -179,6 +247,10 @@ def main():
         ],
         'wall_s': round(time.time() - t0, 1), 'violations': nviol,
     }
+    if symx_part is not None:
+        ev['coverage']['symx_part'] = {'coverage': symx_part.get('coverage'), 'assumptions': symx_part.get('assumptions'), 'wall_s': symx_part.get('wall_s'), 'violations': symx_part.get('violations')}
+        ev['violations'] = nviol + int(symx_part.get('violations') or 0)
+        ev['coverage']['traces_validated_against_impl'] += int((symx_part.get('coverage') or {}).get('traces_validated_against_impl') or 0)
     if problems:
         ev['coverage']['inconclusive'] = ' | '.join(problems)[:4000]
     if vlines:
